@@ -286,6 +286,27 @@ func (vc *VC) pureStdCall(s *State, call *ast.CallExpr, key string, sig *types.S
 		t := sig.Results().At(i).Type()
 		res[i] = vc.loaded(s, t, App(fmt.Sprintf("std.%s.r%d", smtName(key), i), sortOf(t), args...), "res")
 	}
+	if key == "strings.TrimRight" || key == "strings.TrimSpace" {
+		// the result is a prefix of the argument (no longer than it) and, when the set of trimmed bytes is a constant of
+		// ASCII bytes, does not end with one of them
+		cut := " \t\n\v\f\r"
+		known := key == "strings.TrimSpace"
+		if key == "strings.TrimRight" && call != nil && len(call.Args) == 2 {
+			if tv, ok := vc.frame().info.Types[call.Args[1]]; ok && tv.Value != nil && tv.Value.Kind() == constant.String {
+				cut, known = constant.StringVal(tv.Value), true
+			}
+		}
+		r := res[0]
+		s.assume(And(Ge(strLen(r), IntLit(0)), Le(strLen(r), strLen(args[0]))))
+		if known {
+			vc.prog.Assumed["strings.TrimRight / strings.TrimSpace: the result is no longer than the argument and does not end with a byte of the (constant, ASCII) cut set"] = true
+			for i := 0; i < len(cut); i++ {
+				if cut[i] < 0x80 {
+					s.assume(Implies(Gt(strLen(r), IntLit(0)), Not(Eq(strAt(r, Sub(strLen(r), IntLit(1))), IntLit(int64(cut[i]))))))
+				}
+			}
+		}
+	}
 	if call != nil {
 		vc.recordCall(s, exprStr(call.Fun), sig, args, nil)
 		vc.recordCall(s, exprStr(call.Fun), sig, nil, res)
